@@ -719,7 +719,7 @@ def _last_stmt_start(toks, bo, bc):
     return starts[-1]
 
 
-def insert_after_pattern(text, pattern, insertion, fn_name, before=False, nth=1, arm_end=False, arm_last=False, arm_start=False, block_end_of=False):
+def insert_after_pattern(text, pattern, insertion, fn_name, before=False, nth=1, arm_end=False, arm_last=False, arm_start=False, block_end_of=False, after_block_of=False):
     """insert `insertion` right after (or before) the nth occurrence of the token sequence `pattern`
     (whitespace-insensitive).  arm_end: insert before the `}` closing the first `{` that follows the pattern.
     Used for ghost snapshots and arm-end assertions (R6)."""
@@ -748,6 +748,34 @@ def insert_after_pattern(text, pattern, insertion, fn_name, before=False, nth=1,
                 if j >= len(toks):
                     break
                 at = _last_stmt_start(toks, j, match_close(toks, j))
+            elif after_block_of:
+                # right AFTER the statement formed by the innermost block that contains the pattern (an `if c { .. PATTERN .. }`
+                # including its `else` chain): a ghost assertion placed there is reached whether or not the block ran
+                j = s_idx[a] - 1; d = 0
+                while j >= 0:
+                    x = toks[j]
+                    if x.kind == "punct" and x.text in CLOSE: d += 1
+                    elif x.kind == "punct" and x.text in OPEN:
+                        if d == 0: break
+                        d -= 1
+                    j -= 1
+                if j < 0 or toks[j].text != "{":
+                    break
+                e = match_close(toks, j)
+                while True:
+                    n1 = _next_sig(toks, e + 1)
+                    if n1 < len(toks) and toks[n1].text == "else":
+                        n2 = _next_sig(toks, n1 + 1)
+                        while n2 < len(toks) and toks[n2].text != "{":
+                            if toks[n2].text in OPEN:
+                                n2 = match_close(toks, n2)
+                            n2 = _next_sig(toks, n2 + 1)
+                        if n2 >= len(toks):
+                            break
+                        e = match_close(toks, n2)
+                        continue
+                    break
+                at = e + 1
             elif arm_end or block_end_of:
                 if block_end_of:
                     # the innermost block that CONTAINS the pattern (however the `else` / arm around it is spelled)
